@@ -198,6 +198,45 @@ func c09Corpus(r *vf.Run) []parseInput {
 	}
 	add("long-chain", strings.Repeat(`a="1" | `, 20000)+`b="2" ; a`+strings.Repeat(`, b`, 5000))
 	add("long-value", `a="`+strings.Repeat(`x""`, 100000)+`"`)
+	// (round 7) runs of ONE byte value, for every byte value and run lengths around the sizes error messages, token
+	// buffers and UTF-8 decoders work with: at the start, where an operator belongs, after a complete query, inside a value
+	for b := 0; b < 256; b++ {
+		for _, n := range []int{1, 2, 3, 4, 5, 31, 32, 33, 34, 64, 65, 255, 256, 4096, 4097} {
+			run := strings.Repeat(string([]byte{byte(b)}), n)
+			switch (b + n) % 4 {
+			case 0:
+				add("byte-run", run)
+			case 1:
+				add("byte-run", `a="1" `+run+` b="2"`)
+			case 2:
+				add("byte-run", `a="1" & b=$2 ; c`+run)
+			default:
+				if b != '"' {
+					add("byte-run", `a="`+run+`" & b="2"`+run)
+				} else {
+					add("byte-run", `a=`+run)
+				}
+			}
+		}
+	}
+	for _, b := range []byte{0x00, 0x80, 0xbf, 0xc0, 0xe2, 0xf0, 0xff, '"', '$', '9', 'a', '_', ' ', '\n', '(', '^'} {
+		for _, n := range []int{32, 33, 40, 1000} {
+			run := strings.Repeat(string([]byte{b}), n)
+			add("byte-run", run)
+			add("byte-run", `a="1" `+run)
+			add("byte-run", `a="1"`+run)
+			add("byte-run", `a = "1" ; b `+run)
+			add("byte-run", `a="1" ; c, d`+run+`, e`)
+		}
+	}
+	// tokens around the sizes of common read buffers (4 KiB, 64 KiB, 1 MiB): values, fields, placeholders, blanks
+	for _, n := range []int{4095, 4096, 4097, 65532, 65533, 65534, 65535, 65536, 65537, 70001, 300001, 1<<20 + 1} {
+		add("long-token", `a="`+strings.Repeat("v", n)+`"`)
+		add("long-token", `b = "2" | a="`+strings.Repeat(`q"" `, n/4)+`" ; a`)
+		add("long-token", strings.Repeat("f", n)+`="1" ; `+strings.Repeat("G", n))
+		add("long-token", `a=`+strings.Repeat(" ", n)+`"1"`)
+		add("long-token", `a=$`+strings.Repeat("0", n)+`1`)
+	}
 	return out
 }
 
